@@ -32,6 +32,12 @@ Lemma freeze_frozen_raises : frozen_freeze_raises true = true.
 Proof. reflexivity. Qed.
 Lemma key_holds_object : cache_key_holds_object = true.
 Proof. reflexivity. Qed.
+Lemma real_cond_frozen : forall fr, real_cond fr = true -> fr = true.
+Proof.
+  intros fr H. unfold real_cond in H. apply cc_uses_cache_true in H. eapply cond_true_frozen; exact H.
+Qed.
+Lemma real_pin_true : real_pin = true.
+Proof. exact key_holds_object. Qed.
 Lemma safe_hash_key_inj : forall a b, safe_hash_key a = safe_hash_key b -> a = b.
 Proof. intros a b H; exact H. Qed.
 
@@ -45,23 +51,28 @@ Proof. intros [] H; [rewrite freeze_frozen_raises in H; discriminate | reflexivi
 Section Proofs.
   Variable F : fid -> tree -> Z -> option Z.
   Variable always : fid -> bool.
+  Variable cond : bool -> bool.
+  Variable pin : bool.
   Variable D : nat.
+  (* only frozen nodes go through the memo table, and a memo key keeps its node alive *)
+  Hypothesis cond_frozen : forall fr, cond fr = true -> fr = true.
+  Hypothesis pin_true : pin = true.
   (* a method under the unconditional functools.cache reads class-level data only *)
   Hypothesis F_always : forall f, always f = true ->
     forall t t' x, root_tag t = root_tag t' -> F f t x = F f t' x.
 
   Notation rstep := (rstep F D).
   Notation rrun := (rrun F D).
-  Notation cstep := (cstep F always D).
-  Notation crun := (crun F always D).
+  Notation cstep := (cstep F always cond pin D).
+  Notation crun := (crun F always cond pin D).
   Notation disciplined := (disciplined F D).
-  Notation env_ok := (env_ok F always D).
+  Notation env_ok := (env_ok F always cond pin D).
 
-  Lemma uses_cache_cases : forall f fr, uses_cache always f fr = true -> always f = true \/ fr = true.
+  Lemma uses_cache_cases : forall f fr, uses_cache always cond f fr = true -> always f = true \/ fr = true.
   Proof.
     intros f fr H. unfold uses_cache in H. apply orb_true_iff in H. destruct H as [H|H].
     - left; exact H.
-    - right. apply cc_uses_cache_true in H. eapply cond_true_frozen; exact H.
+    - right. apply cond_frozen; exact H.
   Qed.
 
   (* ---------------------------------------------------------------- invariants *)
@@ -439,7 +450,7 @@ Section Proofs.
     destruct (c_get c n) as [[a cc]|] eqn:Hg.
     - destruct (c_get_some _ _ _ _ _ R Hg) as (rc & Hs & Hdr & Hl & Hh & Ho & Hrel & Hhd).
       rewrite Hs, Hdr. rewrite <- (view_eq _ _ R D _ _ Hl).
-      destruct (uses_cache always f (c_fr cc)) eqn:Hu.
+      destruct (uses_cache always cond f (c_fr cc)) eqn:Hu.
       + destruct (lookup (memo c) f a x) as [r|] eqn:Hlk; cbn [fst snd].
         * apply lookup_In in Hlk. destruct (HM _ _ _ _ Hlk) as (cc0 & _ & _ & HF).
           rewrite HF. same_state.
@@ -458,11 +469,11 @@ Section Proofs.
   Proof.
     intros s c a R HM HFC. unfold step_ok. cbn [Memo.cstep Memo.rstep].
     destruct (heap c a) as [cc|] eqn:Hh; [|same_state].
-    destruct (c_handle cc || (cache_key_holds_object && pinned (memo c) a) || referenced c a) eqn:Hguard;
+    destruct (c_handle cc || (pin && pinned (memo c) a) || referenced c a) eqn:Hguard;
       cbn [fst snd]; [same_state|].
     apply orb_false_iff in Hguard. destruct Hguard as [Hguard Href].
     apply orb_false_iff in Hguard. destruct Hguard as [Hhd Hpin].
-    rewrite key_holds_object in Hpin. cbn [andb] in Hpin.
+    rewrite pin_true in Hpin. cbn [andb] in Hpin.
     set (n0 := c_owner cc).
     pose proof (R_heap _ _ R _ _ Hh) as Hl0. fold n0 in Hl0.
     split; [reflexivity|].
@@ -590,7 +601,7 @@ Section Proofs.
     induction h as [|o t IH]; intros s c R HM HFC Hd He; [reflexivity|].
     cbn [Memo.disciplined] in Hd. apply andb_true_iff in Hd. destruct Hd as [Hok Hd].
     unfold Memo.env_ok in He. cbn [Memo.crun Memo.rrun] in *.
-    destruct (Memo.cstep F always D c o) as [c' [y au]] eqn:Hc.
+    destruct (Memo.cstep F always cond pin D c o) as [c' [y au]] eqn:Hc.
     destruct (Memo.rstep F D s o) as [s' x] eqn:Hr.
     cbn [forallb snd map fst] in He. apply andb_true_iff in He. destruct He as [Hnc He].
     apply negb_true_iff in Hnc.
@@ -600,6 +611,50 @@ Section Proofs.
     destruct Hstep as (Hout & R' & HM' & HFC').
     cbn [map fst]. f_equal; [exact Hout|].
     apply IH; auto.
+  Qed.
+
+  (* the invariants hold after every history: in particular every memo entry belongs to a live
+     node that is frozen (or the method is class-level) and holds the method's value on the
+     node's CURRENT view *)
+  Theorem memo_invariant_gen : forall h s c, Rel0 s c -> MemoOK c -> FC s ->
+    disciplined s h = true -> env_ok c h = true ->
+    Rel0 (rfinal F D s h) (cfinal F always cond pin D c h) /\
+    MemoOK (cfinal F always cond pin D c h) /\ FC (rfinal F D s h).
+  Proof.
+    induction h as [|o t IH]; intros s c R HM HFC Hd He; [cbn; auto|].
+    cbn [Memo.disciplined] in Hd. apply andb_true_iff in Hd. destruct Hd as [Hok Hd].
+    unfold Memo.env_ok in He. cbn [Memo.crun Memo.rfinal Memo.cfinal] in *.
+    destruct (Memo.cstep F always cond pin D c o) as [c' [y au]] eqn:Hc.
+    cbn [forallb snd map fst] in He. apply andb_true_iff in He. destruct He as [Hnc He].
+    apply negb_true_iff in Hnc.
+    assert (Hstep : step_ok s c o).
+    { apply step_sim; auto. rewrite Hc. exact Hnc. }
+    unfold step_ok in Hstep. rewrite Hc in Hstep. cbn [fst snd] in Hstep.
+    destruct Hstep as (_ & R' & HM' & HFC').
+    apply IH; auto.
+  Qed.
+
+  Theorem memo_table_sound : forall h,
+    disciplined r0 h = true -> env_ok c0 h = true ->
+    forall f a x r, In (f, a, x, r) (memo (cfinal F always cond pin D c0 h)) ->
+      exists cc, heap (cfinal F always cond pin D c0 h) a = Some cc /\
+                 (c_fr cc = true \/ always f = true) /\
+                 F f (cview D (heap (cfinal F always cond pin D c0 h)) a) x = Some r.
+  Proof.
+    intros h Hd He.
+    destruct (memo_invariant_gen h r0 c0 Rel0_init MemoOK_init FC_init Hd He) as (_ & HM & _).
+    exact HM.
+  Qed.
+
+  (* the parser's discipline keeps every frozen node's children frozen *)
+  Theorem discipline_keeps_frozen_closed : forall h,
+    disciplined r0 h = true -> env_ok c0 h = true ->
+    forall n c, rfinal F D r0 h n = Some c -> r_fr c = true ->
+      forall d, In d (r_deps c) -> r_frozen (rfinal F D r0 h) d = true.
+  Proof.
+    intros h Hd He.
+    destruct (memo_invariant_gen h r0 c0 Rel0_init MemoOK_init FC_init Hd He) as (_ & _ & HFC).
+    exact HFC.
   Qed.
 
   Theorem memo_transparent : forall h,
@@ -784,7 +839,11 @@ End Interleave.
 Section InterleaveTop.
   Variable F : fid -> tree -> Z -> option Z.
   Variable always : fid -> bool.
+  Variable cond : bool -> bool.
+  Variable pin : bool.
   Variable D : nat.
+  Hypothesis cond_frozen : forall fr, cond fr = true -> fr = true.
+  Hypothesis pin_true : pin = true.
   Hypothesis F_always : forall f, always f = true ->
     forall t t' x, root_tag t = root_tag t' -> F f t x = F f t' x.
 
@@ -834,14 +893,15 @@ Section InterleaveTop.
   (* on the memoising machine *)
   Theorem interleaving : forall P th b, separated P th = true ->
     disciplined F D r0 (map snd th) = true ->
-    env_ok F always D c0 (map snd th) = true ->
-    env_ok F always D c0 (sel b th) = true ->
-    sel_out b th (map fst (crun F always D c0 (map snd th))) = map fst (crun F always D c0 (sel b th)).
+    env_ok F always cond pin D c0 (map snd th) = true ->
+    env_ok F always cond pin D c0 (sel b th) = true ->
+    sel_out b th (map fst (crun F always cond pin D c0 (map snd th))) =
+    map fst (crun F always cond pin D c0 (sel b th)).
   Proof.
     intros P th b Hsep Hd He He1.
     destruct (interleave_ref P th b Hsep) as [H1 H2].
-    rewrite (memo_transparent F always D F_always _ Hd He).
-    rewrite (memo_transparent F always D F_always _ (H2 Hd) He1).
+    rewrite (memo_transparent F always cond pin D cond_frozen pin_true F_always _ Hd He).
+    rewrite (memo_transparent F always cond pin D cond_frozen pin_true F_always _ (H2 Hd) He1).
     exact H1.
   Qed.
 End InterleaveTop.
